@@ -134,6 +134,29 @@ CHECKS = {
    note="bounded: strings <= 3 (quick) / 4 (thorough) symbols exhaustively, random to length 12; quick samples f32 patterns, thorough "
         "sweeps all 2^32; model/real plain-decision differences are reported as binding drift, not violations; " + TRUST,
    technique="TLA+ model (Quoting.tla) checked by TLC + TLC trace validation of recorded round trips"),
+ "C13": dict(
+   category="model_checking",
+   text="Emitter.tla defines the Serde data model as a value grammar and what round-tripping means (SameData: same shape and "
+        "leaves, a single YAML null); TLC enumerates every value of the grammar up to a depth (all constructors in all parent "
+        "positions incl. integer and composite map keys, all four enum variant kinds); each value is serialized by the real crate "
+        "under a covering set / all 128 combinations of serializer options, counted for documents on the parser's event stream, "
+        "and read back through a seed of the same shape; the TLA+ trace validator decides every record.",
+   design_ref="DESIGN.md section 4 C13",
+   note="the serializer's layout state machine itself is not yet transcribed into TLA+ (the scratch layout model of DESIGN.md E.1 is "
+        "not part of this check); the specification is the value grammar and the round-trip relation, the binding is the recorded "
+        "round trip; known findings C13-empty-as-braces-off and C13-complex-key-value-map-indent4 suppress only matching values; " + TRUST,
+   technique="TLA+ value grammar (Emitter.tla) enumerated by TLC + TLC trace validation of recorded round trips"),
+ "C20": dict(
+   category="model_checking",
+   text="Same grammar extended with the presentation wrappers as decorations; Emitter!SameData ignores decorations (a folded "
+        "string modulo one trailing line break) and the decorated text must give the same untyped tree as the bare value's "
+        "default text; TLC enumerates every small value with one wrapper at the root or around a child; random values carry "
+        "1-3 wrappers with adversarial comment texts and keys/strings containing flow indicators; all option vectors; decided by "
+        "the TLA+ trace validator.",
+   design_ref="DESIGN.md section 4 C20",
+   note="known findings (flow wrappers with complex keys or payload variants inside, empty_as_braces off, empty literal in Option, "
+        "indent 4 with complex keys) suppress only matching values; " + TRUST,
+   technique="TLA+ value grammar with decorations (Emitter.tla) enumerated by TLC + TLC trace validation of recorded round trips"),
 }
 
 NOT_YET = "check not built yet (work in progress); it will be claimed once its TLA+ model and conformance harness are registered"
